@@ -80,6 +80,185 @@ def subclass_cases(d):
             "sel": [d.randint(0, 1 << 16) for _ in range(8)], "pseed": d.seed(), "subclass": True}
 
 
+
+# ------------------------------------------------------------------------------------------------
+# sub-domain: lists of objects that hold lists of objects (ragged sizes), reached through foreach indices,
+# and a subscript whose index is a non-random field that changes between calls
+NESTED_SRC = '''
+@vsc.randobj
+class M(object):
+    def __init__(self):
+        self.y = vsc.rand_bit_t(2)
+
+@vsc.randobj
+class G(object):
+    def __init__(self, n=0):
+        self.lim = vsc.rand_bit_t(3)
+        self.mode = vsc.bit_t(1)
+        self.members = vsc.rand_list_t(M())
+        for _ in range(n):
+            self.members.append(M())
+    @vsc.constraint
+    def gc(self):
+        self.lim > 0
+
+@vsc.randobj
+class Top(object):
+    def __init__(self, sizes):
+        self.sel = vsc.bit_t(2)
+        self.t = vsc.rand_bit_t(2)
+        self.groups = vsc.rand_list_t(G())
+        for n in sizes:
+            self.groups.append(G(n))
+    @vsc.constraint
+    def c0(self):
+%s
+'''
+
+NESTED_FORMS = {
+    "A": ["        with vsc.foreach(self.groups, idx=True) as i:",
+          "            with vsc.foreach(self.groups[i].members, idx=True) as j:",
+          "                self.groups[i].members[j].y %(op)s self.groups[i].lim"],
+    "B": ["        with vsc.foreach(self.groups, idx=True) as i:",
+          "            self.groups[i].lim != self.t"],
+    "C": ["        self.groups[self.sel].lim == %(k)d"],
+    "D": ["        with vsc.foreach(self.groups, idx=True) as i:",
+          "            with vsc.if_then(self.groups[i].mode == 1):",
+          "                self.groups[i].lim < 3",
+          "            with vsc.else_then:",
+          "                self.groups[i].lim > 4"],
+    "E": ["        with vsc.foreach(self.groups, idx=True) as i:",
+          "            with vsc.foreach(self.groups[i].members, idx=True) as j:",
+          "                self.groups[i].members[j].y != j"],
+    "F": ["        with vsc.foreach(self.groups) as g:",
+          "            g.lim != %(k)d"],
+}
+
+
+@hyp.composite
+def nested_cases(d):
+    sizes = d.choice([[1, 2], [2, 1], [0, 2], [2, 0], [1, 1], [0, 3], [3, 0], [1, 0, 1], [0, 1, 1], [2, 0, 0], [0, 0, 2]])
+    forms = d.sample(["A", "B", "C", "D", "E", "F"], d.randint(1, 3))
+    ops = [["call", d.seed()]]
+    for _ in range(d.randint(1, 4)):
+        r = d.randint(0, 99)
+        if r < 35:
+            ops.append(["sel", d.randint(0, len(sizes) - 1)])
+        elif r < 50:
+            ops.append(["mode", d.randint(0, len(sizes) - 1), d.randint(0, 1)])
+        else:
+            ops.append(["call", d.seed()])
+    ops.append(["call", d.seed()])
+    return {"nested": True, "sizes": sizes, "forms": sorted(forms), "op": d.choice(["<", "<=", "!="]), "k": d.randint(1, 5),
+            "modes": [d.randint(0, 1) for _ in sizes], "ops": ops}
+
+
+def nested_source(case):
+    lines = []
+    for f in case["forms"]:
+        lines += [l % {"op": case["op"], "k": case["k"]} for l in NESTED_FORMS[f]]
+    return NESTED_SRC % "\n".join(lines)
+
+
+def nested_reference(case, sel, modes):
+    """flattened statements over keys t, g<i>.lim, g<i>.m<j>.y"""
+    F = lambda k: ["f", k]
+    st = []
+    sizes = case["sizes"]
+    for i, n in enumerate(sizes):
+        st.append(["expr", ["bin", ">", F("g%d.lim" % i), ["lit", 0]]])
+    for f in case["forms"]:
+        for i, n in enumerate(sizes):
+            if f == "A":
+                for j in range(n):
+                    st.append(["expr", ["bin", case["op"], F("g%d.m%d.y" % (i, j)), F("g%d.lim" % i)]])
+            elif f == "B":
+                st.append(["expr", ["bin", "!=", F("g%d.lim" % i), F("t")]])
+            elif f == "D":
+                st.append(["expr", ["bin", "<", F("g%d.lim" % i), ["lit", 3]]] if modes[i] == 1
+                          else ["expr", ["bin", ">", F("g%d.lim" % i), ["lit", 4]]])
+            elif f == "E":
+                for j in range(n):
+                    st.append(["expr", ["bin", "!=", F("g%d.m%d.y" % (i, j)), ["lit", j]]])
+            elif f == "F":
+                st.append(["expr", ["bin", "!=", F("g%d.lim" % i), ["lit", case["k"]]]])
+        if f == "C":
+            st.append(["expr", ["bin", "==", F("g%d.lim" % sel), ["lit", case["k"]]]])
+    return st
+
+
+def run_nested(case):
+    from ..core.util import import_vsc
+    import enum as _enum
+    vsc = import_vsc()
+    info = {"returned": 0}
+    sizes = case["sizes"]
+    types = {"t": {"name": "t", "kind": "bit", "w": 2, "signed": False, "rand": True}}
+    for i, n in enumerate(sizes):
+        types["g%d.lim" % i] = {"name": "g%d.lim" % i, "kind": "bit", "w": 3, "signed": False, "rand": True}
+        for j in range(n):
+            types["g%d.m%d.y" % (i, j)] = {"name": "g%d.m%d.y" % (i, j), "kind": "bit", "w": 2, "signed": False, "rand": True}
+    rf = list(types.values())
+    names = [f["name"] for f in rf]
+    src = nested_source(case)
+    text = src + "# Top(%s); modes %s; ops %s" % (sizes, case["modes"], cjson(case["ops"]))
+
+    def Vn(kind, detail, extra):
+        return {"property": PROPERTY, "kind": kind, "detail": detail, "case": case, "text": text + "\n# " + extra}
+    reset_library()
+    try:
+        ns = {"vsc": vsc, "enum": _enum}
+        exec(compile(src, "<pvs-c08-nested>", "exec"), ns)
+        top = ns["Top"](sizes)
+        modes = list(case["modes"])
+        for i, m in enumerate(modes):
+            top.groups[i].mode = m
+        sel = 0
+        top.sel = 0
+    except Exception as e:
+        reset_library()
+        return [Vn("library_exception", "construction: " + exc_sig(e), repr(e)[:300])], info
+    for step, op in enumerate(case["ops"]):
+        if op[0] == "sel":
+            sel = op[1]
+            top.sel = sel
+            continue
+        if op[0] == "mode":
+            modes[op[1]] = op[2]
+            top.groups[op[1]].mode = op[2]
+            continue
+        stmts = nested_reference(case, sel, modes)
+        r = flat.enumerate_solutions(types, rf, {}, stmts, limit=1 << 15)
+        if r is None:
+            return [], info
+        allv, sols = r
+        st, exc = flat.do_call(ns, top, "randomize", None, op[1])
+        where = "step %d randomize(seed=%d) with sel=%d modes=%s" % (step, op[1], sel, modes)
+        if st == "exc":
+            reset_library()
+            return [Vn("library_exception", "nested lists: " + exc.sig, where + " raised %r" % (exc,))], info
+        if st == "sf":
+            if sols:
+                return [Vn("spurious_solve_failure", "nested lists", where + ": %d solutions exist" % len(sols))], info
+            continue
+        info["returned"] += 1
+        env = {"t": int(top.t)}
+        for i, n in enumerate(sizes):
+            env["g%d.lim" % i] = int(top.groups[i].lim)
+            if int(top.groups[i].mode) != modes[i]:
+                return [Vn("constant_changed", "mode", where)], info
+            for j in range(n):
+                env["g%d.m%d.y" % (i, j)] = int(top.groups[i].members[j].y)
+        if not sols:
+            return [Vn("returned_on_unsat", "nested lists", where + " returned %s" % cjson(env))], info
+        if tuple(env[n_] for n_ in names) not in set(sols):
+            bad = sem.first_false(stmts, types, env)
+            return [Vn("wrong_field_reached", "a constraint reaching through nested object lists does not hold on the element its indices name",
+                       where + " returned %s; flattened statement #%s %s is false" % (cjson(env), bad, cjson(stmts[bad]) if bad is not None else ""))], info
+    info["ragged"] = len(set(sizes)) > 1
+    return [], info
+
+
 def text_of(case):
     src = render.program_source(case["prog"]) + "# top object: %s()" % case["prog"]["top"]
     types, _, _ = tree.flatten(case["prog"])
@@ -118,6 +297,8 @@ def classify(prog, types, ns):
 
 
 def run_case(case):
+    if case.get("nested"):
+        return run_nested(case)
     prog = case["prog"]
     try:
         types, stmts, ns_nodes = tree.flatten(prog)
@@ -223,6 +404,12 @@ def run_case(case):
 
 def body(case, acc):
     vios, info = run_case(case)
+    if case.get("nested"):
+        acc.case(case, bool(info.get("returned", 0) > 0 and info.get("ragged")), sample=nested_source(case))
+        acc.label("nested object lists")
+        for f in case["forms"]:
+            acc.label("nested form " + f)
+        return vios
     nt = info.get("returned", 0) > 0 and (info.get("siblings") or info.get("nonrand_violated"))
     acc.case(case, bool(nt), sample=text_of(case))
     prog = case["prog"]
@@ -242,12 +429,14 @@ def body(case, acc):
 
 
 def shards(tier):
-    return [{"i": i, "n": 150 if tier == "quick" else 5000} for i in range(15)] + \
-        [{"kind": "subclass", "i": 0, "n": 150 if tier == "quick" else 3000}]
+    return [{"i": i, "n": 150 if tier == "quick" else 5000} for i in range(12)] + \
+        [{"kind": "subclass", "i": 0, "n": 150 if tier == "quick" else 3000}] + \
+        [{"kind": "nested", "i": i, "n": 60 if tier == "quick" else 2500} for i in range(3)]
 
 
 def run_shard(spec, seed, tier, acc):
-    hyp.drive(subclass_cases() if spec.get("kind") == "subclass" else cases(), body, seed, spec["n"], acc)
+    strat = {"subclass": subclass_cases, "nested": nested_cases}.get(spec.get("kind"), cases)()
+    hyp.drive(strat, body, seed, spec["n"], acc)
 
 
 def replay(case):
